@@ -124,6 +124,9 @@ func builtinGlobalParseInt(call FunctionCall) Value {
 		return NaNValue()
 	}
 	if negative {
+		if value == 0 {
+			return float64Value(math.Copysign(0, -1)) // sign * 0 is -0
+		}
 		value *= -1
 	}
 
